@@ -167,7 +167,7 @@ def overwrite_clauses(ctx, out, fs, fo, mode):
 def ctor_contract(file, cls, ext, extra_kwargs=None, modes=("w", "r"), needs=()):
     @contract("C20", file, f"{cls}.__init__", cases=list(modes), covers=["opened-for-writing", "refused"], replay="overwrite:" + ext)
     def _c(ctx, case):
-        path = "/ghost/file." + ext
+        path = "/Ghost/Dir.A/File." + ext  # mixed case on purpose: the existence test must be made on the path as given
         fs = FS(ctx, path)
         fs.install(ctx.interp)
         mod = ctx.module(file)
@@ -208,7 +208,7 @@ ctor_contract("mdtraj/formats/lh5.py", "LH5TrajectoryFile", "lh5", modes=("w",))
 @contract("C20", "mdtraj/utils/zipped.py", "open_maybe_zipped", cases=["plain", "gz", "bz2"],
           covers=["opened-for-writing", "refused"], replay="overwrite:xyz")
 def open_maybe_zipped(ctx, case):
-    path = "/ghost/file" + {"plain": ".txt", "gz": ".txt.gz", "bz2": ".txt.bz2"}[case]
+    path = "/Ghost/Dir.A/File" + {"plain": ".txt", "gz": ".txt.gz", "bz2": ".txt.bz2"}[case]
     fs = FS(ctx, path)
     fs.install(ctx.interp)
     mod = ctx.module("mdtraj/utils/zipped.py")
